@@ -602,6 +602,12 @@ class Unit:
             chunks = splice_fn(sig, body, spec, where, prov, self.with_goals, gi)
             for cid, c in gi.items():
                 self.goal_index[cid] = dict(c, fn=label, props=c['props'] or spec.get('props', []))
+            if lifted and spec["lift"].get("no_enclosing"):
+                # `_mut` walker: the enclosing function is not verified (aliasing &mut nodes cannot be iterated);
+                # only the lifted step is. Its composition is a walker-level assumption, named in the unit.
+                chunks = []
+                prov.append({"cls": "L", "what": "enclosing function NOT verified (mutable walker); only the lifted closure is"})
+                del self.fn_props[label]
             for txt, org in chunks:
                 if org[0] == "body":
                     off = org[1]
